@@ -136,6 +136,8 @@ func (e *env) build(t term, path string) *fun.Iterator[int] {
 		return dt.NewSlice(data).Iterator()
 	case "variadic":
 		return fun.VariadicIterator(data...)
+	case "hang": // self-test only: a channel nobody writes to or closes
+		return fun.ChannelIterator(make(chan int))
 	case "chan":
 		ch := make(chan int, len(data)+1)
 		for _, v := range data {
@@ -367,7 +369,7 @@ func worst(div []string) string {
 
 func replayTerm(in input) map[string]any {
 	o := in.Beh
-	fail := func(key, what string) map[string]any {
+	fail0 := func(key, what string) map[string]any {
 		return map[string]any{"n": in.N, "ok": false, "key": key, "what": what}
 	}
 	modes := []string{"readone", "slice", "next", "json", "count"}
@@ -378,6 +380,15 @@ func replayTerm(in input) map[string]any {
 		modes = o.Modes
 	}
 	unreported := 0
+	var roSeq []int      // what ReadOne delivered
+	var roErrs []string  // paths of the injected sentinels reported by Close() after draining with ReadOne
+	fail := func(key, what string) map[string]any {
+		m := fail0(key, what)
+		if roSeq != nil {
+			m["seq"], m["cerr"] = roSeq, roErrs
+		}
+		return m
+	}
 	for _, mode := range modes {
 		mode := mode
 		op := rt.Start(0, func() any { return drain(o.Term, mode) })
@@ -398,6 +409,15 @@ func replayTerm(in input) map[string]any {
 		r := op.Res.(*outcome)
 		r.e.cancel()
 		got := r.seq
+		if mode == "readone" {
+			roSeq, roErrs = append([]int{}, r.seq...), []string{}
+			for p, s := range r.e.sent {
+				if errors.Is(r.closeErr, s) {
+					roErrs = append(roErrs, p)
+				}
+			}
+			sort.Strings(roErrs)
+		}
 		if o.Kind == "reduce" || mode == "count" {
 			got = []int{r.val}
 		}
@@ -453,7 +473,7 @@ func replayTerm(in input) map[string]any {
 			unreported++
 		}
 	}
-	return map[string]any{"n": in.N, "ok": true, "unreported": unreported}
+	return map[string]any{"n": in.N, "ok": true, "unreported": unreported, "seq": roSeq, "cerr": roErrs}
 }
 
 func main() {
